@@ -2,7 +2,7 @@ from pyvc import frames
 
 INFO = {
     "level": "proof",
-    "level_text": "For an immutable value, `later code cannot alter an earlier state` is the universal frame condition `modifies nothing`. Two families of obligations, regenerated from the real source on every run: (a) every class reachable from SimulationState through its field annotations is a NamedTuple, a frozen dataclass, an Enum or an immutable builtin (no list/dict/set field); (b) every function of the kernel files contains no store into a value it did not create (attribute/subscript assignment, del, in-place container methods, setattr/__dict__, Map.mutate outside merge_dicts). Together with the symbolic execution of the same functions (which rejects any such store as out of reach) this makes every kernel function a pure function of its arguments, which is also the second sentence of the property.",
+    "level_text": "The frame rule also covers the power-curve and powertrain classes (objects held in env.mechatronics and shared by every step: a store to one of their attributes outside the constructor would make stepping the same saved state twice give different results). For an immutable value, `later code cannot alter an earlier state` is the universal frame condition `modifies nothing`. Two families of obligations, regenerated from the real source on every run: (a) every class reachable from SimulationState through its field annotations is a NamedTuple, a frozen dataclass, an Enum or an immutable builtin (no list/dict/set field); (b) every function of the kernel files contains no store into a value it did not create (attribute/subscript assignment, del, in-place container methods, setattr/__dict__, Map.mutate outside merge_dicts). Together with the symbolic execution of the same functions (which rejects any such store as out of reach) this makes every kernel function a pure function of its arguments, which is also the second sentence of the property.",
     "level_note": "RoadNetwork objects are assumed unmodified after construction; the file-reader objects and the Reporter are stateful by design but are not part of the simulation state (they live in Update / Environment); numpy tables are assumed never written; C extensions (immutables, h3) trusted.",
     "technique": "contract-based: universal frame condition `modifies nothing` discharged per function by a syntactic frame rule over the real AST, plus immutability of the state's value classes",
     "trusted_base": ["immutables.Map / frozenset / tuple are immutable", "frozen dataclasses and NamedTuples cannot be assigned to (object.__setattr__ is scanned for)"],
